@@ -50,6 +50,7 @@ CONSTANTS MaxInst,      \* instances are 1..MaxInst; how many run is chosen in I
           ResetOnSleep, \* TRUE as coded: overdue := 0 before the timer is armed; FALSE keeps the previous token's value (negative control)
           LazyAt,       \* pcs at which a lazy tick may be taken (all of them in the exhaustive configurations; {"cmp"} for
                         \* the descheduling scripts, whose delay the harness can inject between Next() and the clock reading)
+          StartDelays,  \* instants at which instances 2.. are started by the startup schedule (instance 1 starts at 0)
           LazyLens,     \* {0} everywhere except script generation: there the length of the descheduling after Next() is
                         \* drawn per token from this set (a restriction of Next that makes long delays frequent in walks)
           Guard,        \* 0: no filter.  g > 0 (script generation): a decision whose lateness lies within
@@ -66,10 +67,12 @@ VARIABLES now, slack, disc, ninst,
           nfired, ndisc,
           hist,     \* ghost (only when Record): sequence of decision records
           lz,       \* ghost (only when Record): [instance -> lazy ticks spent at "cmp" for its current token]
-          want      \* script generation only: [instance -> lazy ticks to spend at "cmp" for its current token]
+          want,     \* script generation only: [instance -> lazy ticks to spend at "cmp" for its current token]
+          startAt,  \* [instance -> instant at which the pool starts it]
+          finishSeen \* the shared schedule's callbackOnFinish has fired (Left() = 0 or Next() !ok seen): no further starts
 
 vars == <<now, slack, disc, ninst, k, nextTok, lastTok, pc, tok, tokk, lastNow, overdue, waitFor, deadline,
-          tnext, last, nfired, ndisc, hist, lz, want>>
+          tnext, last, nfired, ndisc, hist, lz, want, startAt, finishSeen>>
 
 Insts == 1..MaxInst
 Null  == [d |-> "none"]
@@ -108,7 +111,9 @@ Init ==
     /\ disc \in DiscModes
     /\ ninst \in InstCounts
     /\ k = 0 /\ nextTok = 0 /\ lastTok = 0
-    /\ pc = [i \in Insts |-> IF i <= ninst THEN "loop" ELSE "done"]
+    /\ pc = [i \in Insts |-> IF i <= ninst THEN "idle" ELSE "done"]
+    /\ startAt \in {f \in [Insts -> StartDelays \cup {0}] : f[1] = 0 /\ \A i \in Insts : i > ninst => f[i] = 0}
+    /\ finishSeen = FALSE
     /\ tok = [i \in Insts |-> 0] /\ tokk = [i \in Insts |-> 0]
     /\ lastNow = [i \in Insts |-> -1]        \* the zero time.Time: before every token
     /\ overdue = [i \in Insts |-> 0]
@@ -122,6 +127,7 @@ Init ==
     /\ want = [i \in Insts |-> 0]
 
 Blocked(i) == \/ pc[i] = "done"
+              \/ pc[i] = "idle" /\ now < startAt[i] /\ ~finishSeen
               \/ pc[i] \in {"sleep", "shooting"} /\ now < deadline[i]
 AllBlocked == \A i \in Insts : Blocked(i)
 AllDone    == \A i \in Insts : pc[i] = "done"
@@ -136,14 +142,28 @@ Tick ==
     /\ slack' = IF AllBlocked THEN slack ELSE slack + 1
     /\ lz' = IF Record /\ ~AllBlocked THEN [i \in Insts |-> IF pc[i] = "cmp" THEN lz[i] + 1 ELSE lz[i]] ELSE lz
     /\ UNCHANGED <<disc, ninst, k, nextTok, lastTok, pc, tok, tokk, lastNow, overdue, waitFor, deadline,
-                   tnext, last, nfired, ndisc, hist, want>>
+                   tnext, last, nfired, ndisc, hist, want, startAt, finishSeen>>
+
+\* instancePool.startInstances: the startup schedule's token for instance i is due and the start context is alive
+Begin(i) ==
+    /\ pc[i] = "idle" /\ now >= startAt[i] /\ ~finishSeen
+    /\ pc' = [pc EXCEPT ![i] = "loop"]
+    /\ UNCHANGED <<now, slack, disc, ninst, k, nextTok, lastTok, tok, tokk, lastNow, overdue, waitFor, deadline,
+                   tnext, last, nfired, ndisc, hist, lz, want, startAt, finishSeen>>
+\* the shared schedule finished first: cancelStart(), the instance is never created
+CancelStart(i) ==
+    /\ pc[i] = "idle" /\ finishSeen
+    /\ pc' = [pc EXCEPT ![i] = "done"]
+    /\ UNCHANGED <<now, slack, disc, ninst, k, nextTok, lastTok, tok, tokk, lastNow, overdue, waitFor, deadline,
+                   tnext, last, nfired, ndisc, hist, lz, want, startAt, finishSeen>>
 
 \* instance.Run: for !waiter.IsFinished(ctx) { provider.Acquire ...
 Loop(i) ==
     /\ pc[i] = "loop"
     /\ pc' = [pc EXCEPT ![i] = IF k >= NTok THEN "done" ELSE "next"]
+    /\ finishSeen' = (finishSeen \/ k >= NTok)          \* Left() == 0: callbackOnFinish fires (instance start is cancelled)
     /\ UNCHANGED <<now, slack, disc, ninst, k, nextTok, lastTok, tok, tokk, lastNow, overdue, waitFor, deadline,
-                   tnext, last, nfired, ndisc, hist, lz, want>>
+                   tnext, last, nfired, ndisc, hist, lz, want, startAt>>
 
 \* Waiter.Wait: next, ok := w.sched.Next()
 NextTok(i) ==
@@ -162,7 +182,8 @@ NextTok(i) ==
             /\ UNCHANGED <<tok, tokk, k, lastTok, nextTok, tnext>>
     /\ lz' = [lz EXCEPT ![i] = 0]
     /\ IF k < NTok THEN \E w \in LazyLens : want' = [want EXCEPT ![i] = w] ELSE want' = want
-    /\ UNCHANGED <<now, slack, disc, ninst, lastNow, waitFor, deadline, last, nfired, ndisc, hist>>
+    /\ finishSeen' = (finishSeen \/ k >= NTok)          \* Next() returned !ok: callbackOnFinish fires
+    /\ UNCHANGED <<now, slack, disc, ninst, lastNow, waitFor, deadline, last, nfired, ndisc, hist, startAt>>
 
 \* the comparison against the cached reading and the single time.Now() of this Wait
 Cmp(i) ==
@@ -183,7 +204,7 @@ Cmp(i) ==
                ELSE /\ overdue' = IF ResetOnSleep THEN [overdue EXCEPT ![i] = 0] ELSE overdue
                     /\ waitFor' = [waitFor EXCEPT ![i] = tok[i] - now]
                     /\ pc' = [pc EXCEPT ![i] = IF tok[i] - now <= SkipBelow THEN "decide" ELSE "arm"]
-    /\ UNCHANGED <<now, slack, disc, ninst, k, nextTok, lastTok, tok, tokk, deadline, tnext, last, nfired, ndisc, hist, lz, want>>
+    /\ UNCHANGED <<now, slack, disc, ninst, k, nextTok, lastTok, tok, tokk, deadline, tnext, last, nfired, ndisc, hist, lz, want, startAt, finishSeen>>
 
 \* timer.Reset(waitFor): fires waitFor after the runtime's own reading, taken now
 Arm(i) ==
@@ -191,14 +212,14 @@ Arm(i) ==
     /\ deadline' = [deadline EXCEPT ![i] = now + waitFor[i]]
     /\ pc' = [pc EXCEPT ![i] = "sleep"]
     /\ UNCHANGED <<now, slack, disc, ninst, k, nextTok, lastTok, tok, tokk, lastNow, overdue, waitFor,
-                   tnext, last, nfired, ndisc, hist, lz, want>>
+                   tnext, last, nfired, ndisc, hist, lz, want, startAt, finishSeen>>
 
 Wake(i) ==
     /\ pc[i] = "sleep"
     /\ now >= deadline[i]
     /\ pc' = [pc EXCEPT ![i] = "decide"]
     /\ UNCHANGED <<now, slack, disc, ninst, k, nextTok, lastTok, tok, tokk, lastNow, overdue, waitFor, deadline,
-                   tnext, last, nfired, ndisc, hist, lz, want>>
+                   tnext, last, nfired, ndisc, hist, lz, want, startAt, finishSeen>>
 
 IsSlowDown(i) == overdue[i] >= Thresh
 RobustHere(i) == Guard = 0 \/ now - tok[i] <= MAX - Guard \/ now - tok[i] >= MAX + Guard
@@ -221,16 +242,16 @@ Decide(i) ==
             /\ hist' = IF Record THEN Append(hist, Rec(i, "discard", 0)) ELSE hist
             /\ ndisc' = ndisc + 1 /\ nfired' = nfired
             /\ UNCHANGED deadline
-    /\ UNCHANGED <<now, slack, disc, ninst, k, nextTok, lastTok, tok, tokk, lastNow, overdue, waitFor, tnext, lz, want>>
+    /\ UNCHANGED <<now, slack, disc, ninst, k, nextTok, lastTok, tok, tokk, lastNow, overdue, waitFor, tnext, lz, want, startAt, finishSeen>>
 
 ShootEnd(i) ==
     /\ pc[i] = "shooting"
     /\ now >= deadline[i]
     /\ pc' = [pc EXCEPT ![i] = "loop"]
     /\ UNCHANGED <<now, slack, disc, ninst, k, nextTok, lastTok, tok, tokk, lastNow, overdue, waitFor, deadline,
-                   tnext, last, nfired, ndisc, hist, lz, want>>
+                   tnext, last, nfired, ndisc, hist, lz, want, startAt, finishSeen>>
 
-Step(i) == Loop(i) \/ NextTok(i) \/ Cmp(i) \/ Arm(i) \/ Wake(i) \/ Decide(i) \/ ShootEnd(i)
+Step(i) == Begin(i) \/ CancelStart(i) \/ Loop(i) \/ NextTok(i) \/ Cmp(i) \/ Arm(i) \/ Wake(i) \/ Decide(i) \/ ShootEnd(i)
 Next == Tick \/ \E i \in Insts : Step(i)
 
 Spec == Init /\ [][Next]_vars
@@ -243,7 +264,7 @@ Decided == {i \in Insts : last[i].d # "none"}
 
 TypeOK ==
     /\ now \in 0..Horizon /\ slack \in 0..Budget /\ k \in 0..NTok
-    /\ \A i \in Insts : pc[i] \in {"loop", "next", "cmp", "arm", "sleep", "decide", "shooting", "done"}
+    /\ \A i \in Insts : pc[i] \in {"idle", "loop", "next", "cmp", "arm", "sleep", "decide", "shooting", "done"}
     /\ \A i \in Insts : overdue[i] >= 0 /\ lastNow[i] <= now
     /\ nfired + ndisc <= k
 
